@@ -189,7 +189,8 @@ def run(chk):
         entries = [e[0] for e in ents]
         r = model_check(entries, rank, observed, quick)
         if not r.ok:
-            verdicts = [e for e in r.errors if "violated" in e]
+            # (a constant-level invariant such as RankInjective is reported by TLC as "The invariant of X is equal to FALSE")
+            verdicts = [e for e in r.errors if "violated" in e or "is equal to FALSE" in e]
             if not verdicts:
                 raise tlc.TLCError("MapLoad instance failed: %s\n%s" % (r.errors[:3], r.stdout[-3000:]))
             for e in verdicts:
